@@ -18,7 +18,7 @@ LEVEL = "exploration"
 DECIDING = ["C10.frames"]
 RULE = ("molecule pairs written by the harness as .xyz/.gro/.pdb (1-12 atoms of H/C/N/O: single atoms, collinear, planar, non-planar, off-centre "
         "files) plus input/H2O.gro, read through OneMoleculeReader; grid arrays: real FullGrid arrays and non-grid arrays of random unit "
-        "quaternions (both signs, pools of repeated orientations in arbitrary order, near-identity rotations, re-sorted / thinned grid rows) "
+        "quaternions (both signs, pools of repeated orientations in arbitrary order, near-identity rotations, re-sorted / thinned grid rows, whole-Angstrom lattices with integer-component quaternions handed over as int64/int32 arrays or nested lists of ints) "
         "with positions up to 50 A, 1-60 rows; routes: Pseudotrajectory directly, the generator with frames retained by the caller, PtWriter from a saved .npy, PtWriter after write_structure "
         "with the written xyz file read back. "
         "Every frame of every pseudotrajectory is judged. Non-trivial = second molecule with >=2 atoms and >=2 rows; distinct by (molecules, array digest)")
@@ -217,7 +217,14 @@ def write_molecule(path, X, els):
 
 
 def make_array(rng, nprng, tier):
-    kind = rng.choice(["fullgrid", "fullgrid_resorted", "random", "random", "pool", "near_identity", "single_row"])
+    kind = rng.choice(["fullgrid", "fullgrid_resorted", "random", "random", "pool", "near_identity", "single_row", "integer_lattice"])
+    if kind == "integer_lattice":
+        # whole-Angstrom positions with the eight quaternions that have integer components (identity and half turns, both signs):
+        # legal rows that can be handed over as an integer array or as nested lists of Python ints
+        n = rng.randint(2, 40)
+        units = [[0, 0, 0, 1], [0, 0, 0, -1], [1, 0, 0, 0], [-1, 0, 0, 0], [0, 1, 0, 0], [0, -1, 0, 0], [0, 0, 1, 0], [0, 0, -1, 0]]
+        rows = [[rng.randint(-9, 9), rng.randint(-9, 9), rng.randint(-9, 9)] + rng.choice(units) for _ in range(n)]
+        return np.array(rows, dtype=np.int64), f"{kind} n={n}"
     if kind.startswith("fullgrid"):
         from molgri.space.fullgrid import FullGrid
         b = rng.choice(["1", "4", "8", "randomQ_5", "cube4D_9"])
@@ -269,7 +276,10 @@ def drive(pts, io, d, rng, nprng, tier, idx):
     arr, desc = make_array(rng, nprng, tier)
     # the same rows in other legal forms: Fortran-ordered, a non-contiguous view, float32 (positions/quaternions good to ~1e-7)
     form = rng.choice(["c", "c", "fortran", "view", "float32"])
-    if form == "fortran":
+    if desc.startswith("integer_lattice"):
+        form = rng.choice(["int64", "int32", "list_of_ints", "float64"])
+        arr = {"int64": arr, "int32": arr.astype(np.int32), "list_of_ints": arr.tolist(), "float64": arr.astype(float)}[form]
+    elif form == "fortran":
         arr = np.asfortranarray(arr)
     elif form == "view":
         arr = np.repeat(arr, 2, axis=0)[::2]
@@ -301,7 +311,7 @@ def drive(pts, io, d, rng, nprng, tier, idx):
                 w.write_full_pt(os.path.join(d, f"pt_{idx}.xyz"), os.path.join(d, f"pt_{idx}.gro"))
             judge_universe(w.pt_universe, w._verif_ref, f"PtWriter.pt_universe ({route})")
         if n2 >= 2 and len(arr) >= 2:
-            REC.nontrivial_case((k1, n1, k2, n2, desc, arr.tobytes()[:200].hex()))
+            REC.nontrivial_case((k1, n1, k2, n2, desc, np.asarray(arr).tobytes()[:200].hex()))
     except Exception as e:
         REC.crashed("C10.call_raised", e)
 
